@@ -107,14 +107,16 @@ def constant_value(expression, bindings=None):
         # We can't look up the constant reference without the IR, but by the time
         # constant_value is called, the actual values should have been propagated to
         # the type information.
+        #
+        # A reference to a non-constant virtual field has no constant value; it
+        # is reported by constraints._check_constancy_of_constant_references.
+        if not is_constant_type(expression.type):
+            return None
         if expression.type.which_type == "integer":
-            assert expression.type.integer.modulus == "infinity"
             return int(expression.type.integer.modular_value)
         elif expression.type.which_type == "boolean":
-            assert expression.type.boolean.has_field("value")
             return expression.type.boolean.value
         elif expression.type.which_type == "enumeration":
-            assert expression.type.enumeration.has_field("value")
             return int(expression.type.enumeration.value)
         else:
             assert False, "Unexpected expression type {}".format(
